@@ -875,9 +875,12 @@ def abfcoupling_scenario(r, k):
     (C08_abf_coupling: same samples, hence same ABF force, hence exact superposition)"""
     v = {"tsf": 1, "w": 1.0, "extra": ["subtractAppliedForce on"],
          "comps": [{"main": [0], "ref": [], "axis": 2, "coeff": 1.0, "np": 1, "onesite": True}]}
-    biases = [{"kind": "FA", "tsf": 1, "vars": [0], "k": 0.0, "full": r.choice([1, 2, 4])},
-              {"kind": r.choice(["H", "L", "H"]), "tsf": r.choice([1, 1, 2]), "vars": [0], "k": r.choice([1.0, 2.0, 4.0]),
-               "centers": [dy(r, -2, 2, 2)]}]
+    # the other biases: ordinary path (harmonic, linear: fb) and bypassing path (harmonicWalls: fb_actual), alone or mixed;
+    # the trajectory (z in [-3,3]) crosses the walls (upper wall in [-2,1])
+    others = r.choice([["W"], ["W"], ["H"], ["L"], ["H", "W"], ["W", "L"]])
+    biases = [{"kind": "FA", "tsf": 1, "vars": [0], "k": 0.0, "full": r.choice([1, 2, 4])}]
+    for kd in others:
+        biases.append({"kind": kd, "tsf": r.choice([1, 1, 2]), "vars": [0], "k": r.choice([1.0, 2.0, 4.0]), "centers": [dy(r, -2, 1, 2)]})
     ev = []
     z = dy(r, -2, 2, 2)
     for s_ in range(r.randint(8, 14)):
@@ -885,7 +888,7 @@ def abfcoupling_scenario(r, k):
             z = dy(r, -3, 3, 2)
         ev.append(("S", [[0.0, 0.0, z], [0.0, 0.0, 0.0]], [[0.0, 0.0, dy(r, -4, 4, 3)], [0.0, 0.0, 0.0]]))
     return {"id": k, "family": "abfcoupling", "natoms": 2, "mass": [1.0, 1.0], "vars": [v], "biases": biases, "it0": 0,
-            "events": ev, "A": [0], "B": [1], "samestep": False}
+            "events": ev, "A": [0], "B": list(range(1, len(biases))), "samestep": False}
 
 
 def oracle_abf_coupling(run, sc, R):
@@ -898,7 +901,7 @@ def oracle_abf_coupling(run, sc, R):
         nz += 1 if any(x != 0.0 for x in fa) else 0
         if len(fab) != len(fa) or any(not close(x, y) for x, y in zip(fab, fa)):
             run.violation("pipeline:abf-coupling:force", "scenario %d step %d (it=%d): the ABF force is %s next to the restraint and %s alone (subtractAppliedForce, lagged forces)"
-                          % (sc["id"], s, sAB[s]["it"], fab, fa), replay_of(sc, {"AB": [0, 1], "A": [0]}, {"step_index": s}))
+                          % (sc["id"], s, sAB[s]["it"], fab, fa), replay_of(sc, {"AB": sorted(sc["A"] + sc["B"]), "A": [0]}, {"step_index": s}))
             return nz
     return nz
 
@@ -909,8 +912,9 @@ def coupling_scenario(r, k):
     with A+B, with A and with B (C08_total_force_coupling)"""
     v = {"tsf": 1, "w": r.choice([0.5, 1.0, 2.0]), "extra": ["subtractAppliedForce on", "outputTotalForce on"],
          "comps": [{"main": [0], "ref": [], "axis": 2, "coeff": 1.0, "np": 1, "onesite": True}]}
-    biases = [{"kind": "H", "tsf": r.choice([1, 1, 2, 3]), "vars": [0], "k": r.choice([0.5, 1.0, 2.0]), "centers": [dy(r, -2, 2, 2)]},
-              {"kind": r.choice(["H", "L"]), "tsf": r.choice([1, 2]), "vars": [0], "k": r.choice([1.0, 2.0]), "centers": [dy(r, -2, 2, 2)]}]
+    # ordinary (fb) and bypassing (harmonicWalls: fb_actual) biases mixed; the trajectory crosses the walls
+    biases = [{"kind": r.choice(["H", "W", "W"]), "tsf": r.choice([1, 1, 2, 3]), "vars": [0], "k": r.choice([0.5, 1.0, 2.0]), "centers": [dy(r, -2, 1, 2)]},
+              {"kind": r.choice(["H", "L", "W"]), "tsf": r.choice([1, 2]), "vars": [0], "k": r.choice([1.0, 2.0]), "centers": [dy(r, -2, 1, 2)]}]
     ev = []
     for s_ in range(r.randint(6, 10)):
         z = dy(r, -3, 3, 2)
@@ -1097,7 +1101,7 @@ def check(run):
                         tag = "%d:%s" % (sc["id"], t)
                         if tag in mod:
                             ms = parse_model_line(mod[tag], sc["natoms"])
-                            tl.append("TF 1 1 %d " % len(ms) + " ".join("%s %s" % (hx(svals[q]), hx(ms[q]["V"][0]["f"])) for q in range(len(ms))))
+                            tl.append("TFR 1 1 1 %d " % len(ms) + " ".join("%s %s %s" % (hx(svals[q]), hx(ms[q]["V"][0]["fb"]), hx(ms[q]["V"][0]["fba"])) for q in range(len(ms))))
                             tk.append(tag)
                     rc3, tout, _e3 = V.run_lines(model, tl)
                     tfm = {kk: [hf(x) for x in ln.split()] for kk, ln in zip(tk, tout)}
